@@ -401,7 +401,8 @@ func (s *ServerScenario) check(run *srvRun, ex *vs.Exec) (string, string) {
 func srvOpts4(conn net.PacketConn, lg bool) []server4.ServerOpt {
 	o := []server4.ServerOpt{server4.WithConn(conn)}
 	if lg {
-		o = append(o, quietly(server4.WithDebugLogger))
+		inner := server4.WithDebugLogger()
+		o = append(o, func(s *server4.Server) { quiet(func() { inner(s) }) })
 	}
 	return o
 }
@@ -409,7 +410,8 @@ func srvOpts4(conn net.PacketConn, lg bool) []server4.ServerOpt {
 func srvOpts6(conn net.PacketConn, lg bool) []server6.ServerOpt {
 	o := []server6.ServerOpt{server6.WithConn(conn)}
 	if lg {
-		o = append(o, quietly(server6.WithDebugLogger))
+		inner := server6.WithDebugLogger()
+		o = append(o, func(s *server6.Server) { quiet(func() { inner(s) }) })
 	}
 	return o
 }
